@@ -659,8 +659,17 @@ def flw14_nothing_to_delete_is_lost(ctx):
     pc = P.one('Storage::prepare_compact')
     du = DefUse(pc)
     org = du.origins(0)
-    ctx.check('FLW-14', 'Storage::prepare_compact|returns-deleted-list',
-              any(norm_callee(c.func).endswith('MetaStore::delete_partitions') for (_b, c) in org['calls']),
+    def returns_deleted(body, org, depth=0):
+        for (_b, c) in org['calls']:
+            if norm_callee(c.func).endswith('MetaStore::delete_partitions'):
+                return True
+            if depth < 3:
+                # a helper of the crate that performs the swap and hands the list back
+                for hb in P.resolve(c.func or '', body.crate):
+                    if hb.crate == body.crate and returns_deleted(hb, DefUse(hb).origins(0), depth + 1):
+                        return True
+        return False
+    ctx.check('FLW-14', 'Storage::prepare_compact|returns-deleted-list', returns_deleted(pc, org),
               'prepare_compact returns the list produced by MetaStore::delete_partitions',
               where(pc.blocks[0].term))
     comp = P.one('InnerLocustDB::compact')
@@ -802,6 +811,27 @@ def who4_envelope(ctx):
 
 
 # ------------------------------------------------------------------------------------ ORD-11 / LIT-3
+def _written_before(P, b, bid, depth):
+    """write_subpartitions dominates block `bid` of `b`; a helper without a write of its own (the
+    catalogue swap extracted from prepare_compact) is judged at each of its call sites."""
+    wr = calls_matching(b, S + 'write_subpartitions')
+    cfg = CFG(b)
+    if any(wb.id != bid and cfg.dominates(wb.id, bid) for (wb, _wt) in wr):
+        return True
+    if depth >= 3:
+        return False
+    cs = [(c, blk) for (c, kind, blk) in P.callers().get(b.name, []) if kind == 'call']
+    if not cs:
+        return False
+    for (cname, blk) in cs:
+        cb = P.body(cname)
+        if cb is None or blk is None:
+            return False
+        if not _written_before(P, cb, blk if isinstance(blk, int) else blk.id, depth + 1):
+            return False
+    return True
+
+
 def ord11_files_before_catalogue_entry(ctx):
     ctx.rule('ORD-11', 'partition files are written before the in-memory catalogue learns about the '
                        'partition (a catalogue persisted in between must not reference a missing file)',
@@ -814,13 +844,11 @@ def ord11_files_before_catalogue_entry(ctx):
         ins = calls_matching(b, lambda x: x.endswith('MetaStore::insert_partition'))
         if not ins:
             continue
-        wr = calls_matching(b, S + 'write_subpartitions')
-        cfg = CFG(b)
         for (ib, it) in ins:
             n += 1
-            ctx.check('ORD-11', '%s|write-before-insert' % b.name,
-                      bool(wr) and any(cfg.dominates(wb.id, ib.id) for (wb, wt) in wr),
-                      'write_subpartitions dominates MetaStore::insert_partition', where(it))
+            ctx.check('ORD-11', '%s|write-before-insert' % b.name, _written_before(P, b, ib.id, 0),
+                      'write_subpartitions dominates MetaStore::insert_partition (in the function, or in '
+                      'every caller of a helper that performs the catalogue swap)', where(it))
     ctx.require(n >= 3, 'ORD-11: fewer than 3 insert_partition sites (%d)' % n)
 
 
